@@ -75,7 +75,7 @@ def _fmt(tpl, n, rng):
 
 
 def gen(rng, nfiles=None, lang=None, headers=True, ctu=True, nsnip=(2, 7), subdirs=False,
-        snippet_filter=None):
+        snippet_filter=None, modehdr=False):
     """Generate a project. lang: 'c', 'cpp' or None (random per project)."""
     p = Project()
     lang = lang or rng.choice(['c', 'cpp'])
@@ -102,6 +102,11 @@ def gen(rng, nfiles=None, lang=None, headers=True, ctu=True, nsnip=(2, 7), subdi
                 txt = _fmt(sn[2], 'h%d_%s' % (h, nextid()), rng)
                 body += 'static inline ' + txt
                 p.aimed += sn[3]
+            if modehdr:
+                # a finding that exists only for some including files: the includer sets HMODE<h> before the #include
+                body += ('static inline int hmode%d(int sel) {\n    int v;\n#if HMODE%d == 1\n    v = 0;\n#endif\n'
+                         '    return v + sel;\n}\n' % (h, h))
+                p.aimed += ['uninitvar']
             body += '#endif\n'
             p.files[hname] = body
             hdrs.append(hname)
@@ -133,8 +138,10 @@ def gen(rng, nfiles=None, lang=None, headers=True, ctu=True, nsnip=(2, 7), subdi
         depth = name.count('/')
         if ctu_plan:
             t += '#include "%s%s"\n' % ('../' * depth, cname)
-        for h in hdrs:
+        for hi, h in enumerate(hdrs):
             if rng.random() < 0.8:
+                if modehdr:
+                    t += '#define HMODE%d %d\n' % (hi, rng.choice([1, 1, 2]))
                 t += '#include "%s%s"\n' % ('../' * depth, h)
         t += '\n'
         if rng.random() < 0.3:
